@@ -139,6 +139,10 @@ func patWord(code int) Word {
 		return _DMax - 1
 	case 6:
 		return _DB / 10 * 7
+	case 7:
+		return _DB/10 + 1
+	case 8:
+		return 1234567890123456789
 	}
 	return 12345678901234567
 }
